@@ -114,6 +114,7 @@ class VQueue(VObj):
         self._proc = proc
         self._manager = manager
         self._closed = False
+        self._putters = {}
         cur().queues.append(self)
 
     def _full(self):
@@ -137,6 +138,13 @@ class VQueue(VObj):
             if to:
                 raise _queue.Full()
         self._items.append(item)
+        if self._proc:
+            self._putters[id(item)] = (s.current, item)
+
+    def _unflushed_of(self, task):
+        """items put by `task` that nobody has taken yet and that carry user data of unbounded size"""
+        return [it for it in self._items if id(it) in self._putters and self._putters[id(it)][0] is task
+                and big_item(it)]
 
     def _dead(self):
         return self._closed or (self._manager is not None and self._manager._shutdown)
@@ -192,6 +200,23 @@ class VQueue(VObj):
     # queue.Queue extras
     def task_done(self):
         pass
+
+
+def big_item(item):
+    """does the item carry results of the user's function (whose size nothing bounds)?  Bookkeeping items
+    (ids, None tokens) are small and never fill the queue's pipe."""
+    return isinstance(item, tuple) and len(item) == 2 and isinstance(item[1], list) and len(item[1]) > 0
+
+
+def flush_wait(task):
+    """A process that has put items on a multiprocessing.Queue cannot exit before its feeder thread has
+    written them to the pipe; when the pipe is full (results of arbitrary size) that means: before somebody
+    reads them.  Explored as an environment deviation at process exit."""
+    s = cur()
+    for q in s.queues:
+        if q._proc and q._unflushed_of(task):
+            if s.env_choice(2, "pipe-full"):
+                s.point(Op("flush-wait", q, False, enabled=lambda q=q: not q._unflushed_of(task)))
 
 
 class Value(VObj):
@@ -392,7 +417,16 @@ class _Runnable:
             s.user.setdefault("processes", []).append((self, child))
         else:
             child = self
-        task = s.spawn(self._vrole(), child.run, daemon=self._daemonic, is_process=self._is_process)
+        if self._is_process:
+            def body():
+                try:
+                    child.run()
+                finally:
+                    if not s.aborting:
+                        flush_wait(s.current)
+        else:
+            body = child.run
+        task = s.spawn(self._vrole(), body, daemon=self._daemonic, is_process=self._is_process)
         self._vtask = task
         if child is not self:
             child._vtask = task
